@@ -370,6 +370,8 @@ def _commutes_rules(ctx, repo):
     period_soundness_rule(ctx, 'C08.o')
     _predicates_compare_values(ctx, repo)
     _interchangeable_means_symmetric(ctx, repo)
+    from . import c13 as _c13
+    _c13._clifford_pow_is_repeated_product(ctx, repo, rid='C08.s')
     shared.qudit_blind_dispatch_rule(ctx, 'C08.p', ['cirq-core/cirq/ops/', 'cirq-core/cirq/protocols/', 'cirq-google/', 'cirq-aqt/', 'cirq-ionq/', 'cirq-pasqal/'], floor=6)
     ctx.decided.append('C08.p code that recognises X/Z power gates by class looks at their dimension or is tabled as unreachable for qudits')
     ctx.decided.append('C08.o exponent periods used for canonicalisation are multiples of every eigenphase period (PhasedXPowGate._period and the EigenGate helper, interpreted on a rational grid of shifts)')
